@@ -224,7 +224,13 @@ def apply_mod(data, mod):
         # unsorted shell list is C01's subject)
         new = Shell(max(sh.icenter for sh in shells), angs, ["c"] * ncol, exps, coeffs)
         shells.append(new)
-        obasis = MolecularBasis(shells, data.obasis.conventions, data.obasis.primitive_normalization)
+        # the object's own conventions must cover the new shell (on a copy: the dict may be a module table)
+        from iodata.convert import HORTON2_CONVENTIONS
+
+        conv = dict(data.obasis.conventions)
+        for l in angs:
+            conv.setdefault((l, "c"), list(HORTON2_CONVENTIONS[(l, "c")]))
+        obasis = MolecularBasis(shells, conv, data.obasis.primitive_normalization)
         mo = data.mo
         if mo is not None and mo.coeffs is not None:
             rows = new.nbasis * (2 if mo.kind == "generalized" else 1)
